@@ -6,6 +6,10 @@
 (*   nodes                the node tree after the operation, from the verif walk hook: id,x,y and the    *)
 (*                        cell edges l,r,b,t in units of 1/1024                                          *)
 (*   finds/knn/inb        rows of query arguments (incl. filter m,r) and the pointer ids returned        *)
+(* Coordinates are model integers: the real coordinates are those integers, the integers divided by     *)
+(* 1024 (unit-square trees, limits below 1), or - ranked = 1 - positions in an increasing table of      *)
+(* arbitrary floats (non-dyadic bounds, midlines, one-ulp neighbours), for which only the order-based   *)
+(* operations (add, remove, bound search) are recorded.                                                 *)
 (* The spec state st is the abstract bag; it follows the logged contents so that checking continues     *)
 (* after a rejected event.                                                                              *)
 EXTENDS QuadtreeList, TLC, Json, IOUtils
@@ -22,7 +26,8 @@ Queries(S, e)  == /\ \A i \in 1..Len(e.finds) : FindRow(S, e.finds[i])
 NodesOk(S, e) == LET N == {e.nodes[i] : i \in 1..Len(e.nodes)} IN
                  /\ {<<n[1], n[2], n[3]>> : n \in {m \in N : m[1] # 0}} = S
                  /\ Cardinality({i \in 1..Len(e.nodes) : e.nodes[i][1] # 0}) = Cardinality(S)
-                 /\ \A n \in N : n[1] # 0 => (n[4] <= 1024*n[2] /\ 1024*n[2] <= n[5] /\ n[6] <= 1024*n[3] /\ 1024*n[3] <= n[7])
+                 \* (ranked events carry table positions of arbitrary floats, not lattice coordinates: no cell arithmetic)
+                 /\ (e.ranked = 0 => \A n \in N : n[1] # 0 => (n[4] <= 1024*n[2] /\ 1024*n[2] <= n[5] /\ n[6] <= 1024*n[3] /\ 1024*n[3] <= n[7]))
 Ok(S, e, S2) ==
    /\ e.k = "qt"
    /\ Len(e.items) = Cardinality(S2)                          \* no pointer listed twice
